@@ -39,6 +39,7 @@ FIXED = [
  ("C09", "shortest_path with weights='one'", "shortest_path(weights='one') raised TypeError (unit-weight lambda takes one argument, called with two)"),
  ("C09", "shortest_path_to_vertex_set with a single target", "shortest_path_to_vertex_set with a one-element target collection raised KeyError: -1 (sentinel passed instead of the target)"),
  ("C09", "build_path offsets the edges", "shortest_path(..., several targets, export_path_mesh=True): polyline edges of the 2nd+ paths indexed the first path's vertices (offset never advanced)"),
+ ("C10", "EdgeMinimalSpanningTree refuses a dense edge attribute", "EdgeMinimalSpanningTree raised 'Acceptable weights are ... Attribute on edges' for weights stored in a dense edge attribute (ArrayAttribute): the argument check named the sparse class only"),
  ("C10", "CellSpanningTree.build_tree_as_polyline reads", "CellSpanningTree.build_tree_as_polyline raised AttributeError once a 'barycenter' attribute existed on the faces (wrong container tested, non-existent accessor called)"),
  ("C11", "KDTree construction terminates", "KDTree construction looped forever when the pivot equals the largest coordinate on every axis (repeated / collinear / clustered points), all three strategies"),
  ("C11", "KDTree.query only prunes once k candidates", "KDTree.query pruned subtrees with fewer than k candidates held: fewer than min(k,n) results or a farther point returned"),
